@@ -77,12 +77,14 @@ Proof. exact set_payload_af_only. Qed.
 Print Assumptions C02_set_payload_af_only.
 
 (* ---- creation helpers ---- *)
-(* stated, NOT PROVED in this round (the correspondence covers it: generator kind create-with-payload,
-   payload lengths 0..200): *)
-Definition C02_create_packet_with_payload_full : Prop := forall v cc pay, v < 8192 -> cc < 16 -> is_bytes pay ->
+(* the first min(n,184) payload bytes are the requested ones (for n < 2 the rest of the payload is
+   00 7f 00..: WithContinuousAF writes byte 5 although no adaptation field is flagged, see findings) *)
+Theorem C02_create_packet_with_payload : forall v cc pay, v < 8192 -> cc < 16 -> is_bytes pay ->
   let p := Create.CreatePacketWithPayload (Z.of_N v) cc pay in
   is_pkt p /\ Iso.hdr_of p = Iso.mkHdr 71 0 0 0 v 0 1 cc /\
   exists body, Payload_fn p = Ok body /\ takeN (len pay) body = takeN 184 pay.
+Proof. exact create_pwp_spec. Qed.
+Print Assumptions C02_create_packet_with_payload.
 Theorem C02_create_test_packet : forall v cc, v < 8192 -> cc < 16 -> forall pusi hasPay,
   let p := Create.CreateTestPacket (Z.of_N v) cc pusi hasPay in
   is_pkt p /\ Iso.hdr_of p = Iso.mkHdr 71 0 (b2n (hasPay && pusi)) 0 v 0 (b2n hasPay) cc.
